@@ -1049,13 +1049,14 @@ class Judge:
     def step_install(self, o: dict, i: int) -> T.Optional[Failure]:
         lay = self.lay
         what = f'step {i} ({" ".join(self.install_argv(o)[0])})'
-        # excluded region: re-copying a symlink whose installed copy dangles inside DESTDIR (known finding, probed separately)
+        # excluded regions (known findings, probed separately): re-copying a symlink whose installed copy dangles inside
+        # DESTDIR, or whose installed copy points to a directory
         for e in self.entries:
-            if e['typ'] == 'file' and ri.selected(e, o.get('tags'), o.get('skip')) and os.path.islink(e['src']):
+            if e['typ'] == 'file' and ri.selected(e, o.get('tags'), o.get('skip')) and os.path.islink(e['src']) and not self.case.get('probe'):
                 p = lay.staged(e['path'])
-                if os.path.islink(p) and not os.path.exists(p) and not o.get('dry') and not self.case.get('probe'):
+                if os.path.islink(p) and ((not os.path.exists(p) and not o.get('dry')) or os.path.isdir(p)):
                     if self.ev is not None:
-                        self.ev.exclude('re-install over an installed dangling symlink copy (known finding, probed separately)')
+                        self.ev.exclude('re-install over an installed symlink copy that dangles or points to a directory (known findings, probed separately)')
                     return None
         before_in, before_out = self.split(self.snap())
         argv, cwd, env = self.install_argv(o)
@@ -1326,6 +1327,10 @@ PROBES: T.Dict[str, T.Tuple[dict, str, str]] = {
 }
 
 
+PROBES['reinstall-dir-symlink'] = (
+    _probe_base([_subdir_rule({'inner': {'t': 'dir'}, 'inner/f': {'t': 'file', 'mode': 0o644}, 'dlnk': {'t': 'link', 'to': 'inner', 'lk': 'dir'}}, False)],
+                [{'op': 'install'}, {'op': 'install'}]),
+    'install/failed', 'reinstall/installed-symlink-to-directory-refused')
 PROBES['install-mode-uid-1'] = (
     _probe_base([{'k': 'data', 'sp': False, 'dir': '', 'tag': None, 'sources': ['f.txt'], 'install_dir': 'share/c11', 'preserve_path': False,
                   'mode': ['rw-r--r--', 1, 1], 'follow': None, 'sources_kw': False}], [{'op': 'install'}], {'f.txt': {'mode': 0o644}}),
@@ -1342,6 +1347,8 @@ PROBE_DOC = {
                                          "child-directories from header files', so h2.h belongs in cust/inc/deep/; it lands in cust/",
     'man-locale-in-middle': "install_man('x.fritz.fr.1', locale: 'fr'): docs: 'foo.fr.1 with a locale of fr ... {mandir}/{locale}/man{num}/foo.1'; expected "
                             "share/man/fr/man1/x.fritz.1, got xitz.1 (every occurrence of '.fr' is deleted)",
+    'reinstall-dir-symlink': "install_subdir(follow_symlinks: false) of a tree with a symlink to a sibling directory, installed twice: the second "
+                             "install exits 1 with 'Tried to copy file ... but a directory of that name already exists' (the installed link is followed)",
     'install-mode-uid-1': "install_mode: ['rw-r--r--', 1, 1] (docs: \"['rw-r-----', 0, 0] for the file mode and uid/gid\") is rejected at configure time with "
                           "'components can only be permission strings, numbers, or False' because 1 == True",
 }
@@ -1460,7 +1467,8 @@ def selftest(ctx: Ctx) -> None:
 def run(ctx: Ctx) -> None:
     seeds = shard_seeds(ctx, 64)
     per = ctx.n(60, 900)
-    shards: T.List[T.Tuple[str, T.Any]] = [('probe', sorted(PROBES))]
+    # findings already reproduced by the regress replays (run first by the harness) need no second probe
+    shards: T.List[T.Tuple[str, T.Any]] = [('probe', sorted(n for n in PROBES if PROBES[n][2] not in ctx.failures))]
     shards += [('gen', (seeds[i], per, False, 'fork')) for i in range(16)]
     shards += [('gen', (seeds[16 + i], ctx.n(1, 8), True, 'fork')) for i in range(8)]
     shards += [('gen', (seeds[32 + i], ctx.n(1, 12), False, 'strace')) for i in range(8)]
